@@ -37,9 +37,10 @@ func sum(b []byte) uint32 {
 
 // fsHelper runs one FileSystem operation in this (child) process, pinned to
 // one OS thread so that a tracer counts exactly its system calls.
-//   fshelper save <dir> <key-hex> <tag> <size> <nbuf>
-//   fshelper del  <dir> <key-hex>
-//   fshelper dump <dir>            (List, then Load of every key and of the probe keys given)
+//
+//	fshelper save <dir> <key-hex> <tag> <size> <nbuf>
+//	fshelper del  <dir> <key-hex>
+//	fshelper dump <dir>            (List, then Load of every key and of the probe keys given)
 func fsHelper(args []string) {
 	runtime.LockOSThread()
 	dir := args[1]
